@@ -3,6 +3,8 @@ import TapkeeVerif.Proofs.Centering
 import TapkeeVerif.Proofs.Covariance
 import TapkeeVerif.Proofs.EckartYoung
 import TapkeeVerif.Proofs.Inertia
+import TapkeeVerif.Proofs.DijkstraLoop
+import TapkeeVerif.Proofs.DijkstraMain
 /-!
 # C05 — MDS and Kernel PCA return the optimal rank-`d` factor of the centred Gram matrix
 
@@ -100,6 +102,36 @@ theorem isomap_full_k_eq_mds_partial (δ : Fin N → Fin N → K) (G : Mat N N K
     · subst h; simp only [le_refl, if_true]; field_simp; ring
     · simp only [if_neg (not_le.2 h), if_pos h.le]; field_simp; ring
   simp only [isomapPreOfGeodesics, mdsPre, hS]
+
+/-- **Isomap with `k = N − 1` is MDS — in full**, on top of property C04's model of
+    `compute_shortest_distances_matrix` (`Model/Dijkstra.lean`) and its exactness theorem (`row_geodesic`, used
+    read-only): if every other sample is a neighbour of every sample (`hfull`: this is `k = N − 1` for neighbour lists
+    without repetitions) and the distance callback is a symmetric metric, then whatever the queue discipline `disc` and
+    the tie-breaking streams `ch`, the geodesic matrix `G` computed by Dijkstra is the matrix of direct distances, and
+    Isomap hands the eigensolver exactly what MDS hands it. -/
+theorem isomap_full_k_eq_mds {P : Dijkstra.Problem K} {k : Nat} (hw : ∀ a b, 0 ≤ P.w a b) (hm : Dijkstra.Metric P)
+    (hsym : ∀ a b, P.w a b = P.w b a)
+    (hfull : ∀ s v, s < P.N → v < P.N → s ≠ v → Dijkstra.Edge P k s v)
+    {disc : Dijkstra.Disc} {ch : Nat → Nat → Nat} (r : Fin P.N → Vector (Option K) P.N)
+    (hr : ∀ s : Fin P.N, Dijkstra.row P disc k (ch s.1) s.1 s.1 = .ok (r s))
+    (G : Mat P.N P.N K) (hG : ∀ i j : Fin P.N, (r i)[j.1] = some (G i j)) :
+    isomapPreOfGeodesics G = mdsPre (fun i j : Fin P.N => P.w i.1 j.1) := by
+  apply isomap_full_k_eq_mds_partial
+  intro i j
+  have hgeo := Dijkstra.row_geodesic hw (Or.inr rfl) (hr i) j.1 j.2
+  rw [hG i j] at hgeo
+  have hEq : G i j = P.w i.1 j.1 := by
+    by_cases hij : i.1 = j.1
+    · have hd := Dijkstra.IsGeodesic.diag_zero hw i.2 (by rw [← hij] at hgeo; exact hgeo)
+      have : G i j = 0 := Option.some.inj hd
+      rw [this, ← hij, hm.1]
+    · obtain ⟨d', hd', hle⟩ := Dijkstra.IsGeodesic.le_edge (hfull i.1 j.1 i.2 j.2 hij) hgeo
+      have hd : G i j = d' := Option.some.inj hd'
+      exact le_antisymm (hd ▸ hle) (Dijkstra.IsGeodesic.ge_direct hm hgeo)
+  rw [hEq]
+  split_ifs with h
+  · rfl
+  · exact hsym _ _
 
 /-- **the randomized solver is exact on inputs of rank ≤ d.**  Model of `eigendecomposition_impl_randomized`:
     `Q` = the orthonormalised range sample `orth(A'·Ω)` (`QᵀQ = 1`), where `A' = upperView A` is what
